@@ -41,19 +41,29 @@ CHECKS = {
  "C10": ("reference-model monitor: order / sign / selection vs exact comparison of decoded values",
          "all comparison spellings, min/max/clamp, neg/abs/signum/copysign and the class predicates compared with the order of the exactly decoded values (NaR below everything); results must be bit-identical to the selected input. P8: all pairs and all 2^24 clamp triples; P16: all 2^32 pairs in thorough; P32 hostile pairs.",
          "§6 C10"),
+ "C13": ("reference-model monitor: all 62 generic-width instantiations vs the generic (n,es) oracle",
+         "for every N in 2..=32 and both exponent sizes, + - * / mul_add mul_sub sub_product sqrt(es=2) round are run on N-bit patterns left-aligned in 32 bits and compared with the N-bit posit rounding shifted left by 32-N (so non-zero low bits can never match); exhaustive pairs for N <= 10 (quick) / 12 (thorough), hostile tuples otherwise; PxE2<32> vs P32E2 and PxE1<16> vs P16E1 differentially.",
+         "§6 C13"),
+ "C14": ("reference-model monitor: generic-width conversions vs the generic oracle, all 31x31 width pairs",
+         "float, integer, fixed-width-posit, Q32E2 and generic-to-generic conversions (all 961 width pairs x 3 directions, every spelling) compared with the exact / correctly rounded oracle value for the target (n,es); exhaustive when the source has <= 16 bits, hostile samples otherwise.",
+         "§6 C14"),
+ "C17": ("differential monitor: every spelling vs the inherent operation, both real code",
+         "operator traits, op-assign forms, From/Into, num_traits (Zero One Num Signed Float FloatConst Bounded FromPrimitive ToPrimitive NumCast), Quire/AssociatedQuire trait methods and the type aliases are executed side by side with the inherent operation on the same inputs; equality of bits is the oracle, a panic on one side only is a disagreement. Exhaustive for 8/16-bit arguments, hostile samples otherwise.",
+         "§6 C17"),
+ "C18": ("reference-model monitor: staged exact-sum oracle for poly1..18, poly3a, poly4a x 5 coefficient kinds",
+         "x.polyN(c) for all 20 polynomials and coefficient kinds P and [P;1..4] compared with the documented construction evaluated exactly: individually rounded powers, one exact sum + one rounding per quire stage, stage results fed forward. Hostile (x, coefficient array) samples: 100 cells per type.",
+         "§6 C18"),
+ "C19": ("invariant monitor on steered and seeded generator streams",
+         "every value of every gen_range the three Distribution impls call is forced through a steered RngCore (P8: all 64, P16: all 2^18, P32: all 2^27 x 4 in thorough, a seed-rotated 1/32 in quick; the steering itself is self-checked on every run) and long seeded streams are drawn; each sample must be a real posit with 0 <= p < 1 by the exact order, without panicking; evidence counts the distinct sample values observed.",
+         "§6 C19"),
  "C12": ("history monitor + exhaustive round trip: state operations judged against the decoded actual state",
          "p -> quire -> p round trip (value, and the quire's exact fixed-point image) exhaustively for P8/P16 (P32: all 2^32 in thorough); neg/clear/from_bits(to_bits)/into_two_posits/into_three_posits judged on every state reached by generated accumulate histories, relative to the exact value decoded from the quire's actual bit image.",
          "§6 C12"),
 }
 NOT_YET = {
  "C11": "monitor not built yet in this round (planned: exhaustive comparison with committed mpmath tables, DESIGN §6 C11)",
- "C13": "monitor not built yet in this round (planned: generic-width sweep, DESIGN §6 C13)",
- "C14": "monitor not built yet in this round (planned: generic-width conversion sweep, DESIGN §6 C14)",
  "C15": "monitor not built yet in this round (planned: libm filter + mpmath arbiter, DESIGN §6 C15)",
  "C16": "monitor not built yet in this round (planned: op catalogue in three build profiles + Miri, DESIGN §6 C16)",
- "C17": "monitor not built yet in this round (planned: differential spelling table, DESIGN §6 C17)",
- "C18": "monitor not built yet in this round (planned: staged exact-sum oracle, DESIGN §6 C18)",
- "C19": "monitor not built yet in this round (planned: steered RngCore streams, DESIGN §6 C19)",
 }
 NOTE = ("trusted: rustc/LLVM + CPU for the harness' integer code; the exact-arithmetic oracle (harness/src/big.rs, val.rs, fast.rs; "
         "two independent encoders and a u128 fast path cross-checked on every run, every candidate violation re-judged by the slow BigUint path); "
